@@ -785,6 +785,10 @@ func (s *scanner) ReadStreamData(dict Dict) (stm *Stream, err error) {
 	if hasLength {
 		if n, err := s.getInt(lengthObj); err == nil && n >= 0 {
 			declared = int64(n)
+		} else if err != nil && !IsMalformed(err) {
+			// an I/O failure while reading an indirect length is not a
+			// reason to guess the extent of the stream
+			return nil, err
 		}
 	}
 
